@@ -116,7 +116,11 @@ func (s *mstate) concat() []byte {
 }
 
 var c17Payloads = [][]string{{"", "a", "bc"}, {"", "d", "ef"}, {"", "g", "hi"}, {"", "j", "kl"}}
-var c17Bufs = []int{1, 2, 3, 7, 65536}
+
+// c17Copy as a buffer size: drain with io.Copy
+const c17Copy = -7
+
+var c17Bufs = []int{1, 2, 3, 7, 65536, c17Copy}
 
 type c17cfg struct {
 	maxParts, maxBytes, maxReaders int
@@ -295,6 +299,13 @@ func readUpTo(r io.Reader, n int, bufSize int) ([]byte, error) {
 }
 
 func drainAll(r io.Reader, bufSize int) ([]byte, error) {
+	if bufSize == c17Copy {
+		// the way an HTTP handler drains a reader: io.Copy takes the reader's WriteTo / the writer's ReadFrom if there is
+		// one, whatever has been consumed with Read before
+		var w bytes.Buffer
+		_, err := io.Copy(&w, r)
+		return w.Bytes(), err
+	}
 	return readUpTo(r, 1<<30, bufSize)
 }
 
